@@ -316,8 +316,10 @@ private:
       tst1 = std::max(tst1, NumTools::abs<Real>(d_[l]) + NumTools::abs<Real>(e_[l]));
       size_t m = l;
 
-      // Original while-loop from Java code
-      while (m < n_)
+      // Original while-loop from Java code; e_[n_ - 1] == 0 ends the search at m == n_ - 1 at the
+      // latest.  The bound is explicit so that m stays a valid index when the test cannot succeed
+      // (tst1 or e_ not a number after an overflow).
+      while (m + 1 < n_)
       {
         if (NumTools::abs<Real>(e_[m]) <= eps * tst1)
         {
